@@ -102,6 +102,13 @@ def run(chk):
                     n_laws += 1
                     chk.check(all(same_val(u, v) for u, v in zip(c1[0].fields, c2[0].fields)), "T-LAW/Tap::play/idempotent",
                               "play;play differs from play for (%s, saved %s)" % (s, p))
+                # a deck that is already playing ignores play: whatever is still remembered from an earlier stop
+                # (the saved state is not cleared by a resume) must not be restored a second time
+                if s != "Stop":
+                    n_laws += 1
+                    chk.check(all(same_val(u, v) for u, v in zip(x.fields, c1[0].fields)), "T-LAW/Tap::play/while-playing",
+                              "play on a deck that is playing (%s, saved %s) changes its state to %s: the pulse machine jumps back to the point of an earlier stop" % (
+                                  s, p, describe_state(tn, c1[0].fields[fi("state")])))
             # rewind of a stopped deck: the next play starts a fresh pilot
             if s == "Stop":
                 rs = call(RW, x)
